@@ -68,6 +68,7 @@ func judge(t *Tree, set []Atom, routes []*Route, tags []string, rec *callRec, er
 		if err == nil {
 			return &Fail{Sig: "invalid-accepted:" + why, Msg: fmt.Sprintf("%s: the option set contains an invalid designation (%s) but the call returned no error", where, why)}
 		}
+		st.agreed++
 		return nil
 	}
 	if err != nil {
@@ -388,7 +389,9 @@ func main() {
 		g := getGraph(spec)
 		atoms := g.menu.Atoms
 		n := len(atoms)
-		c.Count("menu_atoms:"+spec, int64(n))
+		if c.Worker == 0 {
+			c.Count("menu_atoms:"+spec, int64(n))
+		}
 		// family "set": all multisets of size <= 3, in blocks (i, j) = the two smallest menu indices
 		for i := 0; i < n && !stop; i++ {
 			for j := i; j < n && !stop; j++ {
